@@ -109,7 +109,7 @@ type c12Result struct {
 }
 
 const c12DefaultTimeoutMs = 5000
-const c12HeapLimit = 2 << 30
+const c12HeapLimit = 1536 << 20
 
 // ---------- log.Fatal trap ----------
 
@@ -350,9 +350,18 @@ func c12HeapBytes() uint64 {
 	return t
 }
 
+// c12CPU is the CPU time (user+system) the process has consumed.
+func c12CPU() time.Duration {
+	var ru syscall.Rusage
+	if err := syscall.Getrusage(syscall.RUSAGE_SELF, &ru); err != nil {
+		return 0
+	}
+	return time.Duration(ru.Utime.Nano() + ru.Stime.Nano())
+}
+
 func c12WorkerMain() {
 	// backstop for the heap watchdog
-	_ = syscall.Setrlimit(syscall.RLIMIT_AS, &syscall.Rlimit{Cur: 24 << 30, Max: 24 << 30})
+	_ = syscall.Setrlimit(syscall.RLIMIT_AS, &syscall.Rlimit{Cur: 8 << 30, Max: 8 << 30})
 	debug.SetTraceback("all")
 	c12InstallFatalTrap()
 	in := bufio.NewReaderSize(os.Stdin, 1<<20)
@@ -376,8 +385,10 @@ func c12WorkerMain() {
 				}
 				done := make(chan c12Result, 1)
 				t0 := time.Now()
+				cpu0 := c12CPU()
 				go c12CaseGoroutine(c, done)
-				deadline := time.NewTimer(time.Duration(to) * time.Millisecond)
+				slice := time.Duration(to) * time.Millisecond
+				deadline := time.NewTimer(slice)
 				tick := time.NewTicker(20 * time.Millisecond)
 				var res c12Result
 				fatal := false
@@ -394,7 +405,15 @@ func c12WorkerMain() {
 							break wait
 						}
 					case <-deadline.C:
-						res = c12Result{Outcome: "hang", Msg: fmt.Sprintf("no result after %d ms", to),
+						// a hang is a case that has USED its time: on a loaded machine the wall clock alone
+						// proves nothing. Wait on while the process has burnt less than 60 % of the budget in
+						// CPU time, but never longer than 6 budgets (a blocked goroutine burns nothing).
+						used := c12CPU() - cpu0
+						if used < slice*6/10 && time.Since(t0) < 6*slice {
+							deadline.Reset(slice / 2)
+							continue
+						}
+						res = c12Result{Outcome: "hang", Msg: fmt.Sprintf("no result after %d ms wall / %d ms cpu (budget %d ms)", time.Since(t0).Milliseconds(), used.Milliseconds(), to),
 							Frames: c12SampleChain(8, 25*time.Millisecond), WallMs: time.Since(t0).Milliseconds()}
 						fatal = true
 						break wait
@@ -535,7 +554,7 @@ func c12Exec(pp **c12Proc, c c12Case) c12Result {
 			p.kill()
 			*pp = nil
 		}
-	case <-time.After(time.Duration(to)*time.Millisecond + 6*time.Second):
+	case <-time.After(6*time.Duration(to)*time.Millisecond + 8*time.Second):
 		// even the worker's own watchdog did not answer
 		res = c12Result{Outcome: "hang", Msg: "worker unresponsive", WallMs: time.Since(t0).Milliseconds()}
 		p.kill()
@@ -580,9 +599,8 @@ func c12ExecConfirm(pp **c12Proc, c c12Case) c12Result {
 		}
 		c2.TimeoutMs = 2 * to
 		r2 := c12Exec(pp, c2)
-		if r2.Outcome != "hang" {
+		if r2.Outcome == "ok" || r2.Outcome == "err" {
 			r2.Msg = fmt.Sprintf("[slow: first run exceeded %d ms] %s", to, r2.Msg)
-			return r2
 		}
 		return r2
 	}
@@ -814,6 +832,9 @@ func runC12(r *Run, rng *Rng, tier string) error {
 	if n := runtime.NumCPU(); n < nWorkers {
 		nWorkers = n
 	}
+	if v := os.Getenv("VERIF_C12_WORKERS"); v != "" {
+		fmt.Sscan(v, &nWorkers)
+	}
 	r.Meta.Rule = "build cases: valid generated kustomization trees (1-3 layers, 19 resource kinds, directives namePrefix/nameSuffix/namespace/" +
 		"commonLabels/labels/commonAnnotations/images/replicas/patches/patchesStrategicMerge/patchesJson6902/configMapGenerator/secretGenerator/" +
 		"generatorOptions/replacements/sortOptions/buildMetadata/vars/configurations/components/transformers) with 1-3 structural YAML-node mutations " +
@@ -904,6 +925,13 @@ func runC12(r *Run, rng *Rng, tier string) error {
 		}
 		if res.WallMs > slow && (res.Outcome == "ok" || res.Outcome == "err") {
 			slow = res.WallMs
+		}
+		if res.WallMs > 1500 && (res.Outcome == "ok" || res.Outcome == "err") {
+			r.Count("slow_cases_over_1500ms", c.Kind)
+			if os.Getenv("VERIF_C12_DEBUG") != "" {
+				b, _ := json.Marshal(c)
+				fmt.Fprintf(os.Stderr, "SLOW %d ms %s: %s\nSLOWCASE %s\n", res.WallMs, res.Outcome, firstLine(res.Msg), b)
+			}
 		}
 		if strings.HasPrefix(res.Msg, "[slow:") {
 			r.Count("slow", "first-run-timeout-second-run-finished")
